@@ -523,7 +523,7 @@ type c09Plain struct {
 }
 
 type c09PlainSrc struct {
-	mu sync.Mutex
+	mu  sync.Mutex
 	wa  dials.WatchArgs
 	typ *dials.Type
 	a   int
